@@ -1,4 +1,7 @@
 import Cvise.Proofs.DriverAccept
+import Cvise.Proofs.DriverTimeouts
+import Cvise.Proofs.DriverDirs
+import Cvise.Gen.Const
 /-!
 # C09 — failing, hanging or crashing tests and tools are never accepted (decision logic)
 -/
@@ -43,6 +46,34 @@ theorem bug_dirs_step (cfg : Cfg) (size : C → Nat) (cur : C) (e : EnvRes C σ)
 theorem extra_dirs_step (cfg : Cfg) (size : C → Nat) (cur : C) (e : EnvRes C σ) (g g' : Side C) (gu gu' : Bool) (o : Outcome)
     (h : check cfg size cur e g gu = (o, g', gu')) :
     g.extra ≤ g'.extra ∧ (g'.extra = g.extra ∨ (g'.extra = g.extra + 1 ∧ g.extra ≤ cfg.maxExtra)) := check_extra cfg size cur e g g' gu gu' o h
+
+/-- **a stream of timeouts ends the current round after a fixed number of them**: `Side.timeouts` counts every candidate
+    the scan finds timed out (ghost counter).  Whatever the schedule, the per-candidate faults, the number of candidates
+    and the way the round ends (winner, no winner, error), a round counts at most `MAX_TIMEOUTS` of them. -/
+theorem timeouts_end_the_round (cfg : Cfg) (hM : 1 ≤ cfg.maxTimeouts) (size : C → Nat) (pkey : Nat) (cur : C)
+    (env : Nat → EnvRes C σ) (more : Nat → Bool) (done : Nat → Nat → Bool) (fuel : Nat) (g : Side C) :
+    (RRes.side (roundLoop cfg size pkey cur env more done fuel 0 [] g {})).timeouts ≤ g.timeouts + cfg.maxTimeouts := by
+  have := roundLoop_timeouts cfg size pkey cur env more done fuel 0 [] g {} (by show (0 : Nat) < cfg.maxTimeouts; omega)
+  simpa using this
+
+/-- **saved timeout / bug report directories stay within their documented limits**, over a whole reduction: whatever the
+    passes, the test, the faults, the schedule and the outcome (normal or error), at most `MAX_CRASH_DIRS + 1`
+    `cvise_bug_*` and `MAX_EXTRA_DIRS + 1` `cvise_extra_*` directories exist at the end (indices `0 … MAX`) -/
+theorem report_dirs_within_limits [Inhabited σ] [Inhabited C] (cfg : Cfg) (W : World C) (dn : Sched)
+    (orderOf : List C → List Nat) (fuel : Nat) (first main last : List (PassI C σ)) (x : St C)
+    (h : x.side.bug ≤ cfg.maxCrash + 1 ∧ x.side.extra ≤ cfg.maxExtra + 1) :
+    (LRes.st' (reduce cfg W dn orderOf fuel first main last x)).side.bug ≤ cfg.maxCrash + 1 ∧
+    (LRes.st' (reduce cfg W dn orderOf fuel first main last x)).side.extra ≤ cfg.maxExtra + 1 :=
+  reduce_dirs cfg W dn orderOf fuel first main last x h
+
+/-- the shipped limit meets the hypothesis -/
+theorem shipped_max_timeouts : 1 ≤ Gen.MAX_TIMEOUTS := by decide
+
+/-- the bound is attained: with every candidate timing out and a limit of 2, a round over five candidates counts
+    exactly 2 timeouts and schedules no more than the in-flight window allows -/
+example : (RRes.side (roundLoop ({ maxTimeouts := 2 } : Cfg) (fun (c : Nat) => c) 0 5
+    (fun i => ({ order := i + 1, pr := .ok, cand := 3, st := (), exit := some .timeout } : EnvRes Nat Unit))
+    (fun t => decide (t < 5)) (fun _ _ => true) 100 0 [] {} {})).timeouts = 2 := by decide +kernel
 
 -- non-vacuity: an env that is accepted and one with a signal exit that is not
 example : (check ({} : Cfg) (fun (c : Nat) => c) 5 ({ order := 1, pr := .ok, cand := 3, st := (), exit := some (.code 0) } : EnvRes Nat Unit) {} false).1 = .accept := by decide
